@@ -45,6 +45,15 @@ pub fn family(kind: &str, d: usize) -> (Vec<(String, String)>, String, Result<St
             files.push(("mi.svh".into(), "y\n`INC\n".into()));
             (files, "mi_top.sv".into(), Err("*ExceedRecursiveLimit".into()))   // some Include nesting around it
         }
+        // a file that includes itself through a chain of d macros: every include level costs d levels of macro depth, so both counters
+        // have to be carried across both recursion paths for the run to end before the stack does
+        "kmacro-include-cycle" => {
+            let mut s = String::new();
+            for k in 1..d { s.push_str(&format!("`define K{} `K{}\n", k, k + 1)); }
+            s.push_str(&format!("`define K{} `include \"kself.svh\"\n", d));
+            s.push_str("u\n`K1\n");
+            (vec![("kself.svh".into(), s)], "kself.svh".into(), Err("*ExceedRecursiveLimit".into()))
+        }
         // chain that alternates macro expansion and include, depth d (acyclic)
         "mixed-chain" => {
             let mut files = vec![];
@@ -74,7 +83,10 @@ pub fn child(args: &[String]) {
     std::fs::create_dir_all(dir).unwrap();
     for (p, c) in &files { std::fs::write(PathBuf::from(dir).join(p), c).unwrap(); }
     std::env::set_current_dir(dir).unwrap();
-    let h = std::thread::Builder::new().stack_size(1 << 30).spawn(move || {
+    // cycles must end in an error on an ordinary 8 MiB stack (the property: "instead of hanging or overflowing the stack");
+    // the long acyclic chains get a large stack (inputs whose nesting alone exhausts the stack are outside the claim)
+    let stack = if kind.contains("cycle") { 8 << 20 } else { 1 << 30 };
+    let h = std::thread::Builder::new().stack_size(stack).spawn(move || {
         let dd = no_defines(); let inc = no_includes();
         match preprocess(PathBuf::from(&top), &dd, &inc, false, false) {
             Ok((t, _)) => format!("ok {}", t.text().chars().filter(|c| !c.is_whitespace()).collect::<String>()),
@@ -95,6 +107,7 @@ pub fn main(args: &[String]) {
     for &d in &depths { jobs.push(("include-chain".into(), d)); jobs.push(("macro-chain".into(), d)); if d <= 70 { jobs.push(("mixed-chain".into(), d)); } }
     for d in 1..=6 { jobs.push(("include-cycle".into(), d)); jobs.push(("macro-cycle".into(), d)); }
     jobs.push(("macro-include-cycle".into(), 1));
+    for d in [2usize, 3, 8, 30, 60] { jobs.push(("kmacro-include-cycle".into(), d)); }
     let mut rep = Report::new("schematic families run each in a child process with a 1 GiB stack: include chains / macro chains / alternating macro-include chains of depth d (all depths 1..140 in the thorough tier), include cycles and macro cycles of length 1..6, a macro that expands to an include of a file that uses the macro; expected: fully expanded text up to 64 levels, ExceedRecursiveLimit (wrapped in Include once per include level) beyond; non-trivial = every member; distinct by (family, depth)");
     let jobs = std::sync::Arc::new(jobs);
     let j2 = jobs.clone(); let exe2 = exe.clone(); let root2 = root.clone();
